@@ -153,6 +153,13 @@ let run mode file =
        | ["check"; r] when spec && tx_root r = None -> expect res_s "notx" "check"
        | ["check"; _] -> bump "check";
          if mode <> "c12" then (match res with "ok" :: "0" :: _ -> () | "ok" :: n :: first :: _ -> propfail "tx_check_clean" (n ^ " problems, first: " ^ first) | ["notx"] -> () | _ -> mismatch "check" res_s "ok 0")
+       | ["surg"; what] when String.length what > 6 && String.sub what 0 6 = "alias:" -> bump "surg-alias";
+         (* the output path names the source itself: whatever the command answers, the source stays byte-identical *)
+         (match res with
+          | "alias" :: ans :: fields ->
+            flag ("surg-alias-" ^ ans);
+            if get (kv_of fields) "src" <> "true" then propfail "source_unchanged" ("output aliasing the source (" ^ what ^ "): the source file was modified")
+          | _ -> mismatch "surg" res_s "alias")
        | ["surg"; what] -> bump ("surg-" ^ what);
          (match res with
           | "ok" :: fields ->
